@@ -988,3 +988,192 @@ func laSizes(c *Ctx, rule string) {
 	_ = n
 	r.floor(rule+"/appends", 2, "RequiredField.DoRead, OptionalField.DoRead")
 }
+
+// laFooterMeta (C02, C04, C01, C16): small provenance facts around the footer that the page-level rules lean on.
+//  - the row group's total_byte_size is accumulated over its column chunks (Footer);
+//  - the reader's per-row-group row count comes from the file's RowGroup.NumRows (Metadata.RowGroups), and
+//    Metadata.Rows() is the file's num_rows;
+//  - ReadMetaData positions the source at (tail position − footer length) before decoding the footer.
+func laFooterMeta(c *Ctx, rule string, which map[string]bool) {
+	r, u := c.R, c.U
+	if which["totals"] {
+		tbs := schemaField(u, "RowGroup", "TotalByteSize")
+		n := 0
+		if tbs != nil {
+			cc, co := storesTo(u, tbs)
+			for _, st := range append(cc, co...) {
+				if u.pkgPathOf(st.Parent()) != rtPath {
+					continue
+				}
+				n++
+				key := u.FnName(st.Parent()) + " RowGroup.TotalByteSize"
+				okAcc := false
+				if bo, ok := st.Val.(*ssa.BinOp); ok && bo.Op == token.ADD {
+					for _, pair := range [][2]ssa.Value{{bo.X, bo.Y}, {bo.Y, bo.X}} {
+						if fieldOfLoad(pair[0]) == tbs {
+							if f := fieldOfLoad(stripConvert(pair[1])); f != nil && (f.Name() == "TotalCompressedSize" || f.Name() == "TotalUncompressedSize") {
+								okAcc = true
+							}
+						}
+					}
+				}
+				if constIs(st.Val, 0) {
+					okAcc = true
+				}
+				if okAcc {
+					r.ok(rule, key, u.Pos(st.Pos()), "accumulated over the row group's column chunks")
+				} else {
+					r.bad(rule, key, u.Pos(st.Pos()), "the row group's total_byte_size is set to "+symExpr(st.Val, 0)+", want it accumulated (old + the chunk's size) over all column chunks: with several columns it reports the last column only")
+				}
+			}
+		}
+		r.count(rule+"/total-byte-size", n)
+		r.floor(rule+"/total-byte-size", 1, "Footer")
+	}
+	if which["rows"] {
+		// Metadata.RowGroups(): Rows <- NumRows
+		n := 0
+		for _, f := range u.Funcs {
+			if u.pkgPathOf(f) != rtPath || f.Synthetic != "" {
+				continue
+			}
+			for _, b := range f.Blocks {
+				for _, ins := range b.Instrs {
+					st, ok := ins.(*ssa.Store)
+					if !ok {
+						continue
+					}
+					fld := fieldOf(st.Addr)
+					if fld == nil || fld.Name() != "Rows" || fld.Pkg() == nil || fld.Pkg().Path() != rtPath {
+						continue
+					}
+					n++
+					key := u.FnName(f) + " RowGroup.Rows"
+					if src := fieldOfLoad(stripConvert(st.Val)); src != nil && src.Name() == "NumRows" && src.Pkg() != nil && src.Pkg().Path() == schPath {
+						r.ok(rule, key, u.Pos(st.Pos()), "from the file's RowGroup.NumRows")
+					} else {
+						r.bad(rule, key, u.Pos(st.Pos()), "the reader's row count of a row group is "+symExpr(st.Val, 0)+", want the file's RowGroup.num_rows: Next loads the next row group when this many rows have been delivered")
+					}
+				}
+			}
+		}
+		r.count(rule+"/rowgroup-rows", n)
+		r.floor(rule+"/rowgroup-rows", 1, "Metadata.RowGroups")
+		// Metadata.Rows()
+		if rows := u.Func(rtPath, "Metadata.Rows"); rows != nil {
+			key := "parquet.(*Metadata).Rows"
+			okRows := false
+			for _, b := range rows.Blocks {
+				if ret, ok := lastInstr(b).(*ssa.Return); ok && len(ret.Results) == 1 {
+					if f := fieldOfLoad(stripConvert(ret.Results[0])); f != nil && f.Name() == "NumRows" && f.Pkg() != nil && f.Pkg().Path() == schPath && strings.Contains(symExpr(ret.Results[0], 0), "FileMetaData") == false {
+						okRows = strings.Contains(symExpr(ret.Results[0], 0), "load(recv.metadata).NumRows")
+					}
+				}
+			}
+			if okRows {
+				r.ok(rule, key, u.Pos(rows.Pos()), "the file's num_rows")
+			} else {
+				r.bad(rule, key, u.Pos(rows.Pos()), "Rows() does not return the num_rows of the footer that was read")
+			}
+		} else {
+			r.undecided(rule, "parquet.(*Metadata).Rows", "", "function not found")
+		}
+	}
+	if which["seek"] {
+		rm := u.Func(rtPath, "ReadMetaData")
+		gs := u.Func(rtPath, "getMetaDataSize")
+		key := "parquet.ReadMetaData footer position"
+		if rm == nil || gs == nil {
+			r.undecided(rule, key, "", "ReadMetaData / getMetaDataSize not found")
+			return
+		}
+		// where the tail was read: Seek(k, io.SeekEnd) in getMetaDataSize
+		tailK, found := int64(0), false
+		for _, b := range gs.Blocks {
+			for _, ins := range b.Instrs {
+				if call, ok := ins.(*ssa.Call); ok && call.Call.IsInvoke() && call.Call.Method.Name() == "Seek" && constIs(call.Call.Args[1], 2) {
+					if k, ok := call.Call.Args[0].(*ssa.Const); ok && k.Value != nil {
+						tailK, _ = constant.Int64Val(k.Value)
+						found = true
+					}
+				}
+			}
+		}
+		if !found {
+			r.undecided(rule, key, u.Pos(gs.Pos()), "getMetaDataSize does not seek to a constant offset from the end")
+			return
+		}
+		var size ssa.Value
+		for _, b := range rm.Blocks {
+			for _, ins := range b.Instrs {
+				if call, ok := ins.(*ssa.Call); ok && call.Call.StaticCallee() == gs {
+					size = extractOf(call, 0)
+				}
+			}
+		}
+		okSeek := false
+		var why string
+		for _, b := range rm.Blocks {
+			for _, ins := range b.Instrs {
+				call, ok := ins.(*ssa.Call)
+				if !ok || !call.Call.IsInvoke() || call.Call.Method.Name() != "Seek" {
+					continue
+				}
+				if !constIs(call.Call.Args[1], 2) {
+					why = "the footer is not located relative to the end of the file"
+					continue
+				}
+				// arg = -(size) + tailK as a linear form in size
+				a, k, okL := linIn(call.Call.Args[0], size, 0)
+				if okL && a == -1 && k == tailK {
+					okSeek = true
+				} else {
+					why = fmt.Sprintf("the footer is sought at %s from the end, want -(footer length) %+d (the footer ends where the %d-byte tail begins)", symExpr(call.Call.Args[0], 0), tailK, -tailK)
+				}
+			}
+		}
+		if okSeek {
+			r.ok(rule, key, u.Pos(rm.Pos()), fmt.Sprintf("Seek(-(size) %+d, SeekEnd)", tailK))
+		} else {
+			if why == "" {
+				why = "ReadMetaData does not position the source at the footer"
+			}
+			r.bad(rule, key, u.Pos(rm.Pos()), why)
+		}
+	}
+}
+
+// linIn: v as a*x + k (integer conversions transparent).
+func linIn(v, x ssa.Value, depth int) (a, k int64, ok bool) {
+	if depth > 8 {
+		return 0, 0, false
+	}
+	v = stripConvert(v)
+	if x != nil && v == stripConvert(x) {
+		return 1, 0, true
+	}
+	switch y := v.(type) {
+	case *ssa.Const:
+		if y.Value != nil && y.Value.Kind() == constant.Int {
+			kv, _ := constant.Int64Val(y.Value)
+			return 0, kv, true
+		}
+	case *ssa.UnOp:
+		if y.Op == token.SUB {
+			a1, k1, ok1 := linIn(y.X, x, depth+1)
+			return -a1, -k1, ok1
+		}
+	case *ssa.BinOp:
+		a1, k1, ok1 := linIn(y.X, x, depth+1)
+		a2, k2, ok2 := linIn(y.Y, x, depth+1)
+		if ok1 && ok2 {
+			switch y.Op {
+			case token.ADD:
+				return a1 + a2, k1 + k2, true
+			case token.SUB:
+				return a1 - a2, k1 - k2, true
+			}
+		}
+	}
+	return 0, 0, false
+}
